@@ -31,6 +31,12 @@ pub enum Kind {
     TlsHandshakeFails,
     /// a complete tunnel through a TLS listener (https or socks over TLS)
     TlsTunnel,
+    /// a complete tunnel over a QUIC stream (quic listener)
+    QuicTunnel,
+    /// a QUIC stream that carries garbage / a truncated request and is finished
+    QuicStreamGarbage,
+    /// a reverse-UDP session: datagrams echoed, then ended by the 1 s udp idle timeout
+    ReverseUdpSession,
 }
 
 #[derive(Clone, Debug, Serialize, Deserialize)]
@@ -69,6 +75,9 @@ pub fn case_strategy() -> impl Strategy<Value = Case> {
         1 => Just(Kind::UdpAssociate),
         2 => Just(Kind::TlsHandshakeFails),
         2 => Just(Kind::TlsTunnel),
+        2 => Just(Kind::QuicTunnel),
+        1 => Just(Kind::QuicStreamGarbage),
+        2 => Just(Kind::ReverseUdpSession),
     ];
     let conn = (kind, 0u8..3, any::<u32>(), prop_oneof![Just(0u32), 1u32..5000, 60_000u32..300_000], prop_oneof![Just(0u32), 1u32..5000, 60_000u32..300_000], prop_oneof![Just(0u16), 0u16..400]).prop_map(
         |(kind, proto, tag, c2s, s2c, hold_ms)| Conn { kind, proto, tag, c2s, s2c, hold_ms },
@@ -88,12 +97,24 @@ struct Fx {
     socks: u16,
     https: u16,
     sockstls: u16,
+    quic: u16,
+    revudp: u16,
+    _udp_echo: tokio::task::JoinHandle<()>,
     api: u16,
     refused: u16,
 }
 
 async fn fixture(history: u8, splice: bool) -> Result<Fx, String> {
     let (http, socks, api, refused, https, sockstls) = (free_port(), free_port(), free_port(), free_port(), free_port(), free_port());
+    let (quic, revudp) = (free_port(), free_port());
+    let uecho = tokio::net::UdpSocket::bind("127.0.1.1:0").await.map_err(|e| e.to_string())?;
+    let uecho_addr = uecho.local_addr().unwrap();
+    let udp_echo = tokio::spawn(async move {
+        let mut b = vec![0u8; 65536];
+        while let Ok((n, from)) = uecho.recv_from(&mut b).await {
+            let _ = uecho.send_to(&b[..n], from).await;
+        }
+    });
     let yaml = format!(
         r#"apiVersion: v1
 kind: test
@@ -114,6 +135,16 @@ listeners:
     tls:
       cert: /verif/pki/server.crt
       key: /verif/pki/server.key
+  - name: quic
+    bind: 127.0.0.1:{quic}
+    tls:
+      cert: /verif/pki/server.crt
+      key: /verif/pki/server.key
+  - name: revudp
+    type: reverse
+    protocol: udp
+    bind: 127.0.0.1:{revudp}
+    target: {uecho}
 connectors:
   - name: direct
 rules:
@@ -138,12 +169,15 @@ ioParams:
         socks = socks,
         https = https,
         sockstls = sockstls,
+        quic = quic,
+        revudp = revudp,
+        uecho = uecho_addr,
         api = api,
         history = history,
         splice = splice
     );
     let proxy = tokio::task::spawn_blocking(move || Proxy::start("c16", &yaml, &[http, socks, api], Some(api))).await.map_err(|e| e.to_string())??;
-    Ok(Fx { proxy, http, socks, https, sockstls, api, refused })
+    Ok(Fx { proxy, http, socks, https, sockstls, quic, revudp, _udp_echo: udp_echo, api, refused })
 }
 
 async fn handshake(proto: u8, s: &mut TcpStream, d: Dest, early: Vec<u8>, dur: Duration) -> Reply {
@@ -186,6 +220,9 @@ async fn one_conn(fx: &Fx, c: &Conn, idx: usize) -> Result<Expect, String> {
         "http" => fx.http,
         _ => fx.socks,
     };
+    if matches!(c.kind, Kind::QuicTunnel | Kind::QuicStreamGarbage | Kind::ReverseUdpSession) {
+        return one_datagram_based(fx, c, idx).await;
+    }
     let src = SocketAddr::from(([127, 0, 0, 1], free_port()));
     let mut s = connect_from(Some(src), lo(port)).await.map_err(|e| format!("connect #{}: {}", idx, e))?;
     let mut e = Expect {
@@ -384,6 +421,7 @@ async fn one_conn(fx: &Fx, c: &Conn, idx: usize) -> Result<Expect, String> {
             e.ended_at = Instant::now();
             return Ok(e);
         }
+        Kind::QuicTunnel | Kind::QuicStreamGarbage | Kind::ReverseUdpSession => unreachable!("handled by one_datagram_based"),
         Kind::Denied | Kind::NoRule | Kind::UpstreamRefused => {
             let (ip, port) = match c.kind {
                 Kind::Denied => ([127, 0, 1, 3], 80),
@@ -428,6 +466,125 @@ async fn one_conn(fx: &Fx, c: &Conn, idx: usize) -> Result<Expect, String> {
             e.terminal = "ErrorOccured";
         }
     }
+    e.ended_at = Instant::now();
+    Ok(e)
+}
+
+/// connections whose client leg is not a TCP socket: QUIC streams and reverse-UDP sessions
+async fn one_datagram_based(fx: &Fx, c: &Conn, idx: usize) -> Result<Expect, String> {
+    let dur = Duration::from_secs(10);
+    let mut e = Expect {
+        source: "127.0.0.1:0".parse().unwrap(),
+        listener: if c.kind == Kind::ReverseUdpSession { "revudp" } else { "quic" },
+        kind: c.kind,
+        target: None,
+        connector: None,
+        bytes: None,
+        terminal: "ErrorOccured",
+        accepted: true,
+        ended_at: Instant::now(),
+        seen_live: None,
+    };
+    if c.kind == Kind::ReverseUdpSession {
+        let u = tokio::net::UdpSocket::bind("127.0.0.1:0").await.map_err(|e| e.to_string())?;
+        e.source = u.local_addr().unwrap();
+        e.connector = Some("direct");
+        let n = 1 + (c.tag % 4) as usize;
+        let mut b = vec![0u8; 2048];
+        let mut sent = 0u64;
+        for i in 0..n {
+            let p = vcore::payload(c.tag as u64 + i as u64, 1 + (c.c2s as usize % 1200));
+            u.send_to(&p, lo(fx.revudp)).await.map_err(|e| e.to_string())?;
+            sent += p.len() as u64;
+            match tokio::time::timeout(Duration::from_secs(3), u.recv_from(&mut b)).await {
+                Ok(Ok((m, _))) if m == p.len() => {}
+                other => return Err(format!("reverse-udp #{}: datagram {} not echoed ({:?}) - C10's business", idx, i, other.map(|r| r.map(|x| x.0)))),
+            }
+        }
+        // the session ends by its 1 s idle timeout: an idle timeout is recorded as an error
+        tokio::time::sleep(Duration::from_millis(2500)).await;
+        e.bytes = Some((sent, sent));
+        e.terminal = "any";
+        e.ended_at = Instant::now();
+        return Ok(e);
+    }
+    let ep = crate::tlsutil::quic_client("ca.crt", None);
+    e.source = ep.local_addr().map_err(|e| e.to_string())?;
+    let conn = tokio::time::timeout(dur, ep.connect(lo(fx.quic), "localhost").map_err(|e| e.to_string())?).await.map_err(|_| format!("quic #{}: handshake timeout", idx))?.map_err(|e| e.to_string())?;
+    let (mut w, mut r) = conn.open_bi().await.map_err(|e| e.to_string())?;
+    if c.kind == Kind::QuicStreamGarbage {
+        let junk: Vec<u8> = match c.tag % 3 {
+            0 => b"GET / HTTP/1.1\r\n\r\n".to_vec(),
+            1 => b"CONNECT 127.0.1.1:80 HTT".to_vec(),
+            _ => vec![0xff; 64],
+        };
+        let _ = w.write_all(&junk).await;
+        let _ = w.finish().await;
+        let mut b = [0u8; 512];
+        let _ = tokio::time::timeout(Duration::from_secs(2), r.read(&mut b)).await;
+        conn.close(0u32.into(), b"");
+        e.terminal = "ErrorOccured";
+        e.ended_at = Instant::now();
+        return Ok(e);
+    }
+    // QuicTunnel
+    let l = tokio::net::TcpListener::bind("0.0.0.0:0").await.map_err(|e| e.to_string())?;
+    let oport = l.local_addr().unwrap().port();
+    let d = Dest { host: Host::V4([127, 0, 1, 1]), port: oport };
+    e.target = Some(d.render());
+    e.connector = Some("direct");
+    let c2s = vcore::payload(c.tag as u64, c.c2s as usize);
+    let s2c = vcore::payload(c.tag as u64 ^ 77, c.s2c as usize);
+    let s2c_o = s2c.clone();
+    let origin = tokio::spawn(async move {
+        let (mut os, _) = match tokio::time::timeout(Duration::from_secs(10), l.accept()).await {
+            Ok(Ok(x)) => x,
+            _ => return 0usize,
+        };
+        let mut got = 0usize;
+        let mut b = vec![0u8; 65536];
+        loop {
+            match os.read(&mut b).await {
+                Ok(0) | Err(_) => break,
+                Ok(n) => got += n,
+            }
+        }
+        let _ = os.write_all(&s2c_o).await;
+        let _ = os.shutdown().await;
+        got
+    });
+    let t = d.authority();
+    w.write_all(&rc::encode_connect(&t, &[(b"Host".to_vec(), t.clone())])).await.map_err(|e| e.to_string())?;
+    let mut buf = vec![];
+    let mut tmp = [0u8; 4096];
+    let consumed = loop {
+        if let Some(h) = rc::parse_http_head(&buf, true) {
+            if h.start.1 != b"200" {
+                return Err(format!("quic tunnel #{} refused", idx));
+            }
+            break h.consumed;
+        }
+        match tokio::time::timeout(dur, r.read(&mut tmp)).await {
+            Ok(Ok(Some(n))) if n > 0 => buf.extend_from_slice(&tmp[..n]),
+            _ => return Err(format!("quic tunnel #{}: no reply", idx)),
+        }
+    };
+    w.write_all(&c2s).await.map_err(|e| e.to_string())?;
+    w.finish().await.map_err(|e| e.to_string())?;
+    let mut got = buf.len() - consumed;
+    loop {
+        match tokio::time::timeout(Duration::from_secs(15), r.read(&mut tmp)).await {
+            Ok(Ok(Some(n))) if n > 0 => got += n,
+            _ => break,
+        }
+    }
+    let ogot = origin.await.unwrap_or(0);
+    conn.close(0u32.into(), b"");
+    if ogot != c2s.len() || got != s2c.len() {
+        return Err(format!("quic tunnel #{} relayed {}/{} and {}/{} bytes (C01's business, cannot judge the counters)", idx, ogot, c2s.len(), got, s2c.len()));
+    }
+    e.bytes = Some((c2s.len() as u64, s2c.len() as u64));
+    e.terminal = "Terminated";
     e.ended_at = Instant::now();
     Ok(e)
 }
@@ -650,7 +807,7 @@ impl SubCheck for HistoriesCheck {
         "histories"
     }
     fn rule(&self) -> String {
-        "generated mixes of 1-39 connections (concurrency 1-15) on a fresh real proxy each: tunnels with payloads up to 300 kB per direction (with and without early data), denied, no rule, upstream refused, client RST mid-transfer, origin RST, handshake garbage, disconnect inside the handshake, SOCKS5 UDP association ended by its 1 s idle timeout, complete tunnels through the TLS listeners (https, SOCKS5 over TLS), peers that send no / a truncated / a wrong-protocol TLS ClientHello to those listeners (0 or 1 record allowed, a record must be complete); through HTTP CONNECT, SOCKS5 and SOCKS4; historySize in {0,1,3,50}; splice on/off; the access log renamed + POST /logrotate at generated points; every client binds its own source port; oracle: exactly one JSON log record per accepted connection across all log files, distinct ids, right listener / target / connector, lifecycle-conformant state log with exactly one terminal state and error text iff ErrorOccured, byte counters == relayed payload for clean tunnels, listed in /api/live while open and not 2.6 s after the end, /api/history bounded, duplicate-free, newest first and holding the most recent ends; non-trivial = >= 3 outcome kinds, a rotation during traffic, or historySize smaller than the burst".into()
+        "generated mixes of 1-39 connections (concurrency 1-15) on a fresh real proxy each: tunnels with payloads up to 300 kB per direction (with and without early data), denied, no rule, upstream refused, client RST mid-transfer, origin RST, handshake garbage, disconnect inside the handshake, SOCKS5 UDP association ended by its 1 s idle timeout, complete tunnels through the TLS listeners (https, SOCKS5 over TLS), peers that send no / a truncated / a wrong-protocol TLS ClientHello to those listeners (0 or 1 record allowed, a record must be complete); complete tunnels and garbage on QUIC streams (quic listener), reverse-UDP sessions ended by the 1 s idle timeout; through HTTP CONNECT, SOCKS5 and SOCKS4; historySize in {0,1,3,50}; splice on/off; the access log renamed + POST /logrotate at generated points; every client binds its own source port; oracle: exactly one JSON log record per accepted connection across all log files, distinct ids, right listener / target / connector, lifecycle-conformant state log with exactly one terminal state and error text iff ErrorOccured, byte counters == relayed payload for clean tunnels, listed in /api/live while open and not 2.6 s after the end, /api/history bounded, duplicate-free, newest first and holding the most recent ends; non-trivial = >= 3 outcome kinds, a rotation during traffic, or historySize smaller than the burst".into()
     }
     fn run(&self, part: &mut Part) {
         let n = part.tier.pick(16, 400) as usize;
@@ -679,6 +836,9 @@ impl SubCheck for HistoriesCheck {
         });
         for (c, r) in results {
             let mut info = CaseInfo::default();
+            for conn in &c.conns {
+                info.class(format!("{:?}", conn.kind));
+            }
             match r {
                 Ok((nt, sample)) => {
                     info.nontrivial = nt;
